@@ -9,6 +9,10 @@ claimed = {
    text='Seeded search over goroutine interleavings: every run executes one concurrent template natively and in the interpreter from one choice list under a parking scheduler that decides who runs at every yield (statement-level in the interpreter); oracles are the native twin (determinate observations and lockstep histories), a channel reference model replaying the completion-ordered history (admissible-outcome check for select and racing senders) and ThreadSanitizer with the scheduler handshakes hidden from it. Exploration, not proof: a clean batch is evidence over the sampled schedules only.',
    note='Trusted: Go toolchain (native twin), testing/synctest quiescence detection, ThreadSanitizer, the channel model (validated on every run against the history compiled Go produced). Interleavings finer than one interpreted statement are only race-detected. Templates are fixed programs with seeded behaviour; Go picks among ready select cases itself (recorded, replay re-rolls).',
    technique='deterministic simulation: seeded parking scheduler in a synctest bubble + native twin + channel reference model + race detector'),
+ 'C06': dict(level='exploration', design='3.7',
+   text='Partial: decides the frame-recycling clause and closure sharing. Seeded histories of escape operations (closures and addresses of locals outliving their call, interleaved with frame-churning calls) are executed natively, interpreted with recycling disabled, and interpreted under a seeded allocator configuration (pool capacity 0/1/2/3/32, seeded drop-instead-of-recycle, every recycled frame poisoned so any stale read is wrong at once). The three event logs must be equal and no sentinel may be observed.',
+   note='One fixed template; call-specialisation correctness over the space of signatures is a pure function of the program and is NOT decided. Trusted: Go toolchain (twin). The allocator seam only changes capacity/recycling decisions and the content of released frames.',
+   technique='deterministic simulation: allocator fault injection (pool capacity, drop, poison-on-free) + self-reference without recycling + native twin'),
  'C07': dict(level='exploration', design='3.6',
    text='Seeded defer/panic/recover call trees (one fixed universal template; every frame draws its defers, panics, recursion) executed natively and in the interpreter from one choice list, first fault-free and then with a panic injected at every fault point of the tree (enumerated per tree) with panic values of 6 dynamic types; the event logs (defer order, recovered values, results, escaping panic) must be equal event by event. A separate battery covers deferred builtin calls.',
    note='Trusted: the Go toolchain as oracle. Excluded by documentation: recover inside compiled functions deferred by interpreted code, panic(nil), text of runtime-error panics. One fixed template: no syntactic variety.',
